@@ -1,0 +1,126 @@
+//go:build verif
+
+package syzgydb
+
+import (
+	"sync"
+	"unsafe"
+)
+
+// Verification hooks (build tag "verif"). Nothing here is compiled into a normal build.
+
+var verifPointHook func(name string, db *SpanFile)
+var verifPointMu sync.Mutex
+
+func verifPoint(name string, db *SpanFile) {
+	verifPointMu.Lock()
+	h := verifPointHook
+	verifPointMu.Unlock()
+	if h != nil {
+		h(name, db)
+	}
+}
+
+// VerifSetPointHook installs a callback invoked at named points inside storage
+// operations (after file growth, after a span write, after free-marking) and
+// between lock acquisitions.
+func VerifSetPointHook(h func(name string, db *SpanFile)) {
+	verifPointMu.Lock()
+	verifPointHook = h
+	verifPointMu.Unlock()
+}
+
+func (c *Collection) VerifRemoveDocument(id uint64) error { return c.removeDocument(id) }
+func (c *Collection) VerifSpanFile() *SpanFile            { return c.spanfile }
+
+// VerifFileBytes returns a copy of the mapped file.
+func (db *SpanFile) VerifFileBytes() []byte {
+	out := make([]byte, len(db.mmapData))
+	copy(out, db.mmapData)
+	return out
+}
+
+// VerifMmapBounds returns the address range of the current mapping.
+func (db *SpanFile) VerifMmapBounds() (uintptr, int) {
+	if len(db.mmapData) == 0 {
+		return 0, 0
+	}
+	return uintptr(unsafe.Pointer(&db.mmapData[0])), len(db.mmapData)
+}
+
+func (db *SpanFile) VerifFreeMap() [][2]int {
+	out := make([][2]int, 0, len(db.freeMap.freeSpaces))
+	for _, s := range db.freeMap.freeSpaces {
+		out = append(out, [2]int{s.start, s.length})
+	}
+	return out
+}
+
+func (db *SpanFile) VerifIndex() map[string]uint64 {
+	out := make(map[string]uint64, len(db.index))
+	for k, v := range db.index {
+		out[k] = v
+	}
+	return out
+}
+
+func (db *SpanFile) VerifSeq() uint32 { return db.sequenceNumber }
+
+// VerifNode is a dump of one LSH tree node.
+type VerifNode struct {
+	Leaf        bool
+	IDs         []uint64
+	Normal      []float64
+	B           float64
+	Radius      float64
+	Left, Right *VerifNode // nil child pointers are preserved as nil
+}
+
+func verifDumpNode(n *lshNode) *VerifNode {
+	if n == nil {
+		return nil
+	}
+	if n.isLeaf() {
+		return &VerifNode{Leaf: true, IDs: append([]uint64{}, n.ids...)}
+	}
+	return &VerifNode{Normal: append([]float64{}, n.normal...), B: n.b, Radius: n.radius,
+		Left: verifDumpNode(n.left), Right: verifDumpNode(n.right)}
+}
+
+// VerifDumpForest returns a deep copy of the LSH forest.
+func (c *Collection) VerifDumpForest() []*VerifNode {
+	out := make([]*VerifNode, len(c.lshTree.roots))
+	for i, r := range c.lshTree.roots {
+		out[i] = verifDumpNode(r)
+	}
+	return out
+}
+
+func (c *Collection) VerifThreshold() int { return c.lshTree.threshold }
+
+// VerifSide exposes the routing decision of the index for a vector at a hyperplane.
+func (c *Collection) VerifSide(vector []float64, normal []float64, b float64) (float64, bool) {
+	return distanceToHyperplane(c.DistanceMethod, vector, vectorLength(vector), normal, b)
+}
+
+func (c *Collection) VerifDistance(a, b []float64) float64 { return c.distance(a, b) }
+
+func VerifEuclidean(a, b []float64) float64 { return euclideanDistance(a, b) }
+func VerifAngular(a, b []float64) float64   { return angularDistance(a, b) }
+func VerifQuantize(v float64, bits int) uint64   { return quantize(v, bits) }
+func VerifDequantize(v uint64, bits int) float64 { return dequantize(v, bits) }
+func VerifEncodeVector(v []float64, q int) []byte {
+	return encodeDocument(&Document{Vector: v}, q)
+}
+func VerifDecodeVector(data []byte, dims, q int) []float64 { return decodeVector(data, dims, q) }
+func VerifGetVectorSize(q, dims int) int                    { return getVectorSize(q, dims) }
+func VerifWrite7Code(n uint64) []byte                       { return write7Code(nil, n) }
+func VerifLengthOf7Code(n uint64) uint64                    { return lengthOf7Code(n) }
+func VerifRead7Code(b []byte, off int) (uint64, int, error) { return read7Code(b, off) }
+func VerifChecksum(b []byte) uint32                         { return calculateChecksum(b) }
+
+// VerifServer gives in-process access to the REST handlers.
+func VerifNewServer(dataFolder string) *Server {
+	globalConfig.DataFolder = dataFolder
+	return &Server{collections: make(map[string]*Collection)}
+}
